@@ -631,7 +631,7 @@ def _same(got, exp, v):
 def rule_cardinality(rep):
     with rep.rule(
         "R07.cardinality",
-        "_next_token: no token -> None (error path), one -> it, several -> DisambiguationError(Location(head), tokens)",
+        "_next_token: no token -> None (error path), one -> it, several -> DisambiguationError located at the position the tokens are recognised at",
     ) as r:
         f = rep.repo.func("parglare.parser.Parser._next_token")
         head = f.params[1]
@@ -672,8 +672,8 @@ def rule_cardinality(rep):
                     ok = ex.kind == "return" and val in ("TOKS[0]", "TOKS[-1]")
                     exp = "return the token"
                 else:
-                    ok = ex.kind == "raise" and val == "DisambiguationError(Location(HEAD), TOKS)"
-                    exp = "raise DisambiguationError(Location(head), tokens)"
+                    ok = ex.kind == "raise" and val == "DisambiguationError(Location(ErrorContext(HEAD)), TOKS)"
+                    exp = "raise DisambiguationError(Location(ErrorContext(head)), tokens) -- located at the ambiguous token"
                 r.check(
                     ok,
                     f"{v['n']} candidate token(s)",
